@@ -156,10 +156,19 @@ C10_Monotone(ln) ==
            (Before(ln, n).inv[p] # After(ln, n).inv[p] \/ Before(ln, n).traits[p] # After(ln, n).traits[p])
              => After(ln, n).rp[p].gen > Before(ln, n).rp[p].gen
 
+\* C04 on the commit sequence: a request answered with an error committed nothing
+\* but (possibly) a consumer record without allocations, which it removes again
+DropIdleS(st) == [st EXCEPT !.cons = [c \in {d \in DOMAIN @ : d \in DOMAIN st.alloc} |-> @[c]]]
+C04_ErrorsNoEffect(ln) ==
+  \A n \in DOMAIN ln.commits :
+     ln.resps[ln.commits[n].who].status >= 400 => DropIdleS(Before(ln, n)) = DropIdleS(After(ln, n))
+
 Verdict(ln) ==
      (IF Serializable(ln) THEN {} ELSE {"C07_Serializable"})
 \cup (IF \A k \in DOMAIN ln.reqs : ln.resps[k].status < 400 \/ ErrorJustified(ln, k) THEN {} ELSE {"ErrorJustified"})
 \cup (IF C10_Monotone(ln) THEN {} ELSE {"C10_Monotone"})
+\cup (IF C04_ErrorsNoEffect(ln) THEN {} ELSE {"C04_ErrorsNoEffect"})
+\cup (IF C09_Inv(NormState(ln.final)) THEN {} ELSE {"C09_FinalForest"})
 \cup (IF C05_Commits(ln) THEN {} ELSE {"C05_Commits"})
 \cup (IF C05_AtMostOne(ln) THEN {} ELSE {"C05_AtMostOne"})
 \cup (IF C06_Commits(ln) THEN {} ELSE {"C06_Commits"})
